@@ -7,6 +7,7 @@ import (
 
 	clienttypes "github.com/bianjieai/tibc-go/modules/tibc/core/02-client/types"
 	packettypes "github.com/bianjieai/tibc-go/modules/tibc/core/04-packet/types"
+	host "github.com/bianjieai/tibc-go/modules/tibc/core/24-host"
 	routingtypes "github.com/bianjieai/tibc-go/modules/tibc/core/26-routing/types"
 	"github.com/bianjieai/tibc-go/modules/tibc/core/exported"
 	corekeeper "github.com/bianjieai/tibc-go/modules/tibc/core/keeper"
@@ -187,6 +188,12 @@ func H_C01_handler_recv() {
 	}
 	if err == nil {
 		vp.Reach("receive message succeeded")
+		vp.Assert(onlyWrote(ctx, mark,
+			host.PacketReceiptKey(p.SourceChain, p.DestinationChain, p.Sequence),
+			host.PacketAcknowledgementKey(p.SourceChain, p.DestinationChain, p.Sequence),
+			host.MaxAckSeqKey(p.SourceChain, p.DestinationChain),
+			host.PacketCommitmentKey(p.SourceChain, p.DestinationChain, p.Sequence)),
+			"C19.2 a successful receive records exactly the receipt and, as the case may be, the acknowledgement (+ high-water mark) or the forwarded commitment")
 		vp.Assert(verified, "C01.1 the message succeeds only after a successful verification of exactly this packet")
 		vp.Assert(k.HasPacketReceipt(ctx, p.SourceChain, p.DestinationChain, p.Sequence), "C02.2 a successful message leaves the receipt")
 		if p.DestinationChain == w.self {
@@ -269,5 +276,47 @@ func H_C03_handler_ack() {
 	if !anyOk(w) {
 		vp.Assert(err != nil, "C03.1 without a successful verification the message fails")
 		vp.Assert(c.app.ackCalls == 0, "C03.1 without a successful verification the acknowledgement logic does not run")
+	}
+}
+
+// H_C19_handler_clean: MsgCleanPacket / MsgRecvCleanPacket through the message server: a refusal of
+// the keeper is returned to the caller (BaseApp then discards the branch), success means the keeper succeeded.
+func H_C19_handler_clean() {
+	c := newCore()
+	w, k, ctx := c.w, c.k.PacketKeeper, c.ctx
+	src, dst, relay := name("src"), name("dst"), optName("relay")
+	cp, maxAck := vp.Uint64("pre.cleanPoint"), vp.Uint64("pre.maxAck")
+	vp.Assume(cp < 90 && maxAck < 99)
+	vp.SetIf(cp > 0, func() { k.SetCleanPacketCommitment(ctx, src, dst, cp) })
+	vp.SetIf(maxAck > 0, func() { k.SetMaxAckSequence(ctx, src, dst, maxAck) })
+	n := vp.Uint64("N")
+	vp.Assume(n <= cp+2)
+	cpk := packettypes.CleanPacket{Sequence: n, SourceChain: src, DestinationChain: dst, RelayChain: relay}
+	if vp.Bool("on.source") {
+		_, err := c.srv.CleanPacket(ctx, &packettypes.MsgCleanPacket{CleanPacket: cpk, Signer: "user"})
+		if err == nil {
+			vp.Reach("clean message succeeded")
+			vp.Assert(n > cp && n <= maxAck && src == w.self, "C19.1 a clean message succeeds only if the keeper accepted it (own channel, N in (clean point, acknowledged])")
+			vp.Assert(clientBE(k.GetCleanPacketCommitment(ctx, src, dst)) == n, "C10.3 a successful clean message moves the clean point to N")
+		} else {
+			vp.Reach("clean message failed")
+		}
+		if !(n > cp && n <= maxAck) {
+			vp.Assert(err != nil, "C19.1 a refused clean request fails the message")
+		}
+		return
+	}
+	proof := vp.Bytes("proof", 1, 1)
+	h := nondetHeight("h")
+	_, err := c.srv.RecvCleanPacket(ctx, &packettypes.MsgRecvCleanPacket{CleanPacket: cpk, ProofCommitment: proof, ProofHeight: h, Signer: "relayer"})
+	if err == nil {
+		vp.Reach("receive-clean message succeeded")
+		vp.Assert(anyOk(w), "C10.2 a receive-clean message succeeds only after a successful verification")
+		vp.Assert(n > cp && n <= maxAck, "C19.1 a receive-clean message succeeds only if the keeper accepted it")
+	} else {
+		vp.Reach("receive-clean message failed")
+	}
+	if !anyOk(w) || !(n > cp && n <= maxAck) {
+		vp.Assert(err != nil, "C19.1 a refused receive-clean request fails the message")
 	}
 }
